@@ -363,7 +363,8 @@ const OUR_PORT: &str = "wasm.ics20";
 const CHANS: [&str; 4] = ["channel-0", "channel-1", "channel-2", "channel-10"];
 // `gamm` / `gamm/pool/1`: a native denom that itself contains the voucher separator, next to the denom that is its
 // first path segment (inside `/`-separated renderings a denom's own `/` is written `~`, see `slash_enc`)
-const DENOMS: [&str; 4] = ["uatom", "ustake", "gamm", "gamm/pool/1"];
+// `UATOM`: a second coin that differs from another only in letter case (denoms are case sensitive)
+const DENOMS: [&str; 5] = ["uatom", "ustake", "gamm", "gamm/pool/1", "UATOM"];
 
 /// a denom inside a `/`-separated rendering (`sent=`, `sub=`): its own `/` becomes `~`
 fn slash_enc(d: &str) -> String {
